@@ -48,6 +48,19 @@ STRENGTHENED = {
     "C12-E": "session 3: the same command run once more over its own results",
     "C13-E": "session 3 (written after reading the agent's report, before the first run; the old check had no file above 24 bytes): content at 4 KiB..256 KiB buffer boundaries",
     "C13-F": "session 3 (written after reading the agent's report, before the first run; the old check had no importer without a directory): -e / stdin / ext-code / tla-code importers",
+    "C02-G": "session 3: scoping templates (a name bound by every kind of binder and bound again further in) run by the reference interpreter",
+    "C02-H": "caught by C18 (slices with negative bounds on non-ASCII strings); C02 keeps strings ASCII where a slice is taken",
+    "C04-G": "session 3: formatting consumes only what its directives use ('*' precision ignored by the conversion, unnamed object fields)",
+    "C04-H": "session 3: element-wise builtins over the characters of a string",
+    "C05-G": "session 3: manifesters_see_only_the_value - all manifesters in one program, any order, vs each in a program of its own",
+    "C05-H": "session 3: manifesters_see_only_the_value - inherited objects with hidden fields as array elements / fields under every manifester",
+    "C06-H": "first run inconclusive (wall limit on an overloaded machine); the committed check is run again in the table",
+    "C08-G": "session 3: both operands already evaluated by an earlier use (every operator and the __compare_array family)",
+    "C11-G": "session 3: run-time names on objects whose assertion fails, next to sources that intern the same names",
+    "C12-H": "session 3: --max-trace 0 / 1 among the extra flags, the value passing through std.trace inside calls (C16 catches it too: every --max-trace from 0)",
+    "C18-G": "session 3: patterns that overlap themselves by a border of two or more characters",
+    "C18-H": "session 3: white space of every kind around the subject",
+    "C19-H": "session 3: digits far behind the point (precisions 300..1100 on doubles with up to 1074 fractional digits)",
     "C03-E": "(caught at first exposure by hook H4 - a handle traced twice - added earlier in session 3)",
     "C03-F": "(caught at first exposure by the per-edge garbage cycles of steady_state added earlier in session 3)",
 }
